@@ -21,7 +21,7 @@ R6 sufficiency (max-affine forms, all widths): fixed x fixed needs
 from fractions import Fraction as F
 
 from ..loader import AnalysisError
-from ..pe import PE, Tensor, Obj, PyRaise, ClassRef
+from ..pe import PE, Tensor, Obj, PyRaise, ClassRef, Unsupported
 from ..qir import Fwd, simplify_app
 from ..nf import NF, show
 from .. import typearith as ta
@@ -555,6 +555,74 @@ def rule_history_independence(rep, repo):
                         % m)
 
 
+def rule_conversion_follows_object(rep, repo, rule="R13"):
+  """The operand type derived from a qkeras quantizer describes the
+  quantizer as it is NOW: a quantizer object that was converted, then
+  re-parameterised in place (as QAdaptiveActivation does with bits /
+  integer), and converted again - by the same or by a new factory - gives
+  the type a freshly built quantizer with those parameters gives.  Nothing
+  a factory keeps between conversions may stand in for the object."""
+  from .. import quant
+  from ..pe import ConfigRejected
+  qf = repo.module(QF)
+  unit = "%s::QuantizerFactory.make_quantizer" % qf.relpath
+  rep.unit(unit)
+  loc = qf.loc(qf.classes["QuantizerFactory"].node)
+  fields = ("mode", "bits", "int_bits", "is_signed", "max_val_po2",
+            "use_01")
+  cases = [
+      ("quantized_bits", dict(bits=4, integer=0, keep_negative=True),
+       dict(bits=8)),
+      ("quantized_bits", dict(bits=6, integer=0, keep_negative=True),
+       dict(integer=3)),
+      ("quantized_bits", dict(bits=6, integer=1, keep_negative=True),
+       dict(keep_negative=False)),
+      ("quantized_relu", dict(bits=4, integer=0), dict(bits=7)),
+      ("quantized_relu", dict(bits=6, integer=0), dict(integer=2)),
+      ("binary", dict(use_01=False), dict(use_01=True)),
+  ]
+  n = 0
+  for cls, kw, change in cases:
+    for same_factory in (True, False):
+      cfg = "%s(%s) converted, then %s, converted again by %s factory" % (
+          cls, ",".join("%s=%s" % kv for kv in sorted(kw.items())),
+          ", ".join("q.%s = %s" % kv for kv in sorted(change.items())),
+          "the same" if same_factory else "a new")
+      try:
+        b_ = quant.build(repo, cls, kw)
+        pe = b_.pe
+        pe.opaque_ext = True
+        fac = pe.call(pe.lookup_global("QuantizerFactory", qf), [], {})
+        pe.call(pe.getattr(fac, "make_quantizer"), [b_.obj], {})
+        for k_, v_ in change.items():
+          pe.setattr(b_.obj, k_, v_)
+        fac2 = fac if same_factory else pe.call(
+            pe.lookup_global("QuantizerFactory", qf), [], {})
+        t2 = pe.call(pe.getattr(fac2, "make_quantizer"), [b_.obj], {})
+        fresh = quant.build(repo, cls, dict(kw, **change))
+        pf = fresh.pe
+        pf.opaque_ext = True
+        tf_ = pf.call(pf.getattr(pf.call(pf.lookup_global(
+            "QuantizerFactory", qf), [], {}), "make_quantizer"),
+                      [fresh.obj], {})
+      except (PyRaise, Unsupported, ConfigRejected) as e:
+        rep.extra.setdefault("conversion_sequences_skipped", {})[cfg] = \
+            str(e)[:100]
+        continue
+      if not isinstance(t2, Obj) or not isinstance(tf_, Obj):
+        continue
+      n += 1
+      got = tuple(t2.attrs.get(f) for f in fields)
+      want = tuple(tf_.attrs.get(f) for f in fields)
+      rep.check(got == want and t2.cls is tf_.cls, rule, unit,
+                "conversion-ignores-current-parameters",
+                "%s: the second conversion gives %s %s, a freshly built "
+                "quantizer with these parameters %s %s" % (
+                    cfg, t2.cls.name, dict(zip(fields, got)), tf_.cls.name,
+                    dict(zip(fields, want))), loc=loc, instance=cfg)
+  return n
+
+
 def rule_float_products(rep, repo):
   """R12: floating-point operands.  The product type is floating point, as
   wide as the widest floating-point operand (a product of an fp32 and an
@@ -832,6 +900,9 @@ def run(rep, repo, tier):
   rule_products_are_independent(rep, repo)
   rep.require_instances("R11", 16)
   rule_float_products(rep, repo)
+  if rule_conversion_follows_object(rep, repo) < 8:
+    raise AnalysisError("instance-count conversion sequences: %r" %
+                        rep.extra.get("conversion_sequences_skipped"))
   rule_history_independence(rep, repo)
   rep.require_instances("R12", 30)
   rep.require_instances("R10", 200)
